@@ -154,7 +154,7 @@ fn main() {
     let watch = Arc::new(Mutex::new((std::time::Instant::now(), String::new(), 0i64)));
     {
         // watchdog: a case that does not return within the limit is an input on which processing hangs
-        let w = watch.clone(); let rp = report.clone(); let limit = if tier == "thorough" { 60 } else { 20 };
+        let w = watch.clone(); let rp = report.clone(); let limit = if tier == "thorough" { 10 } else { 5 };
         let mode2 = mode.clone();
         std::thread::spawn(move || loop {
             std::thread::sleep(std::time::Duration::from_millis(250));
